@@ -482,6 +482,14 @@ Proof.
       right. simpl. rewrite Nat.add_succ_r. rewrite <- app_assoc in Hl. exact Hl.
 Qed.
 
+Lemma run_ok_conderr : forall i h rest o n, run_ok i h rest o n ->
+  forall k ctx, o = OCondErr k ctx -> c_reterr c = true.
+Proof.
+  induction 1 as [i h n|i h n Hs|i h r o n Hr Hl|i h r rest o n Hr Hst Hcp Hrun IH]; intros k ctx E; try discriminate.
+  - subst o. simpl in Hl. apply Hl.
+  - eapply IH; eauto.
+Qed.
+
 Lemma run_ok_started_count : forall i h rest o n, run_ok i h rest o n ->
   Z.of_nat (List.length h) <= c_max c ->
   Z.of_nat (List.length h) + Z.of_nat (List.length (filter cr_started rest)) <= c_max c.
@@ -654,6 +662,35 @@ Proof.
   destruct (run_loop U1 cond1 act1 fuel c order 0 (init_st reset1 u1 es) []) as [[s1' recs1] o1].
   destruct (run_loop U2 cond2 act2 fuel c order 0 (init_st reset2 u2 es) []) as [[s2' recs2] o2].
   destruct Hr as (Hs & Hrecs & Ho). split; [apply Hs|auto].
+Qed.
+
+Lemma fetch_loop_sim : forall reterr es u1 u2 acc,
+  R u1 u2 ->
+  let '(u1', m1, e1) := fetch_loop U1 cond1 reterr es u1 acc in
+  let '(u2', m2, e2) := fetch_loop U2 cond2 reterr es u2 acc in
+  R u1' u2' /\ m1 = m2 /\ e1 = e2.
+Proof.
+  intros reterr es. induction es as [|e es IH]; intros u1 u2 acc H; simpl.
+  - auto.
+  - destruct (fetch_guard (e_retracted e) (e_deleted e)); [|apply IH; exact H].
+    destruct (e_retracted e); [apply IH; exact H|].
+    destruct (cond_sim u1 u2 e H) as [A B].
+    destruct (cond1 u1 e) as [u1' r1]. destruct (cond2 u2 e) as [u2' r2]. simpl in A, B. subst r2.
+    destruct r1; try (apply IH; exact B).
+    destruct reterr; [auto|apply IH; exact B].
+Qed.
+
+Theorem fetch_sim : forall (reset1 : U1 -> U1) (reset2 : U2 -> U2) reterr order u1 u2 es,
+  R (reset1 u1) (reset2 u2) ->
+  let '(u1', r1) := fetch U1 cond1 reset1 reterr order u1 es in
+  let '(u2', r2) := fetch U2 cond2 reset2 reterr order u2 es in
+  R u1' u2' /\ r1 = r2.
+Proof.
+  intros reset1 reset2 reterr order u1 u2 es H. unfold fetch.
+  pose proof (fetch_loop_sim reterr (order (unretract es)) (reset1 u1) (reset2 u2) [] H) as Hs.
+  destruct (fetch_loop U1 cond1 reterr (order (unretract es)) (reset1 u1) []) as [[u1' m1] e1].
+  destruct (fetch_loop U2 cond2 reterr (order (unretract es)) (reset2 u2) []) as [[u2' m2] e2].
+  destruct Hs as (A & -> & ->). destruct e2; auto.
 Qed.
 
 End Simulation.
